@@ -44,7 +44,17 @@ def main():
     tags = sorted(d for d in os.listdir(os.path.join(HERE, 'seeded')) if os.path.isdir(os.path.join(HERE, 'seeded', d)))
     if args:
         tags = [t for t in tags if any(t.startswith(a) for a in args)]
-    jobs = [(t, [t.split('-')[0]] + [c for c in also if c != t.split('-')[0]]) for t in tags]
+    def checks_for(t):
+        # seeded/<tag>/meta.json may name further checks ("decided_by") when the change breaks a neighbouring property's
+        # clause (e.g. a stale-iterator change filed under C11 that is a C10 history)
+        own = t.split('-')[0]
+        extra = []
+        try:
+            extra = json.load(open(os.path.join(HERE, 'seeded', t, 'meta.json'))).get('decided_by', [])
+        except (IOError, ValueError):
+            pass
+        return [own] + [c for c in list(extra) + also if c != own]
+    jobs = [(t, checks_for(t)) for t in tags]
     results = {}
     ok = True
     with cf.ThreadPoolExecutor(max_workers=3) as ex:
@@ -52,6 +62,11 @@ def main():
             results[tag] = res
             own = res.get(tag.split('-')[0], {})
             caught = own.get('rc') == 1
+            if not caught:
+                for c, r in res.items():
+                    if isinstance(r, dict) and r.get('rc') == 1:
+                        caught, own = True, dict(r, first='[by %s] %s' % (c, r.get('first', '')))
+                        break
             ok = ok and caught
             print('%-10s %-7s %s' % (tag, 'CAUGHT' if caught else ('ERROR ' + res.get('_error', '') if '_error' in res else 'MISSED rc=%s' % own.get('rc')),
                                      own.get('first', '')[:150]), flush=True)
